@@ -107,13 +107,42 @@ func (r *Region) Supergraph() *SG {
 			continue
 		}
 		link(c.before, g.first[h.Blocks[0]])
+		// Correlated error returns: when the site is `if err := h(…); err != nil { … }` (the test ends the block of the call and
+		// nothing but the test sits between), a return of h whose error is provably non-nil continues on the failing edge of
+		// that test, a return of constant nil on the surviving edge. Without this every error-returning guard that was
+		// extracted into h would seem to fall through to the code after the test.
+		var failTo, okTo *seg
+		if c.after != nil && errResultIndex(h) >= 0 {
+			site := r.site[h]
+			if sv, isCall := site.(*ssa.Call); isCall && pureTail(c.after) {
+				for _, gd := range errNilGuards(c.before.fn, func(x *ssa.Call) bool { return x == sv }) {
+					if gd.If.Block() == c.before.blk && gd.If.Block().Succs[0] != gd.If.Block().Succs[1] {
+						okTo = g.first[gd.If.Block().Succs[gd.Survive]]
+						failTo = g.first[gd.If.Block().Succs[1-gd.Survive]]
+					}
+				}
+			}
+		}
 		for _, hb := range h.Blocks {
 			if len(hb.Instrs) == 0 {
 				continue
 			}
-			if _, isRet := hb.Instrs[len(hb.Instrs)-1].(*ssa.Return); isRet && c.after != nil {
-				link(g.last[hb], c.after)
+			ret, isRet := hb.Instrs[len(hb.Instrs)-1].(*ssa.Return)
+			if !isRet || c.after == nil {
+				continue
 			}
+			if failTo != nil && okTo != nil {
+				ev := ret.Results[errResultIndex(h)]
+				if !isSuccessReturn(h, ret) {
+					link(g.last[hb], failTo)
+					continue
+				}
+				if isNilConst(ev) {
+					link(g.last[hb], okTo)
+					continue
+				}
+			}
+			link(g.last[hb], c.after)
 		}
 	}
 	g.entry = g.first[r.Root.Blocks[0]]
@@ -314,4 +343,19 @@ func (g *SG) PassesBetween(from, to, via ssa.Instruction) bool {
 		del[segEdge{p.id, v.id}] = true
 	}
 	return !g.reachableFrom(f, del)[t]
+}
+
+// pureTail: the segment after a helper call holds nothing but the extraction / test of the call's results.
+func pureTail(s *seg) bool {
+	if s.hi != len(s.blk.Instrs) {
+		return false
+	}
+	for _, in := range s.blk.Instrs[s.lo:s.hi] {
+		switch in.(type) {
+		case *ssa.Extract, *ssa.BinOp, *ssa.If, *ssa.DebugRef, *ssa.UnOp, *ssa.Store, *ssa.Phi:
+		default:
+			return false
+		}
+	}
+	return true
 }
